@@ -12,18 +12,18 @@ from . import hostrig
 from .c04 import INV4, INV5, host_consts, pmap
 from .core import Ctx
 
-REACTIONS = ("cover", "stale", "nak", "silence", "latecover", "latenak", "error", "rstack", "nakcover")
+REACTIONS = ("cover", "stale", "nak", "silence", "latecover", "latenak", "error", "rstack", "nakcover", "slowcover", "slownak")
 PAIRS = (("cover", "error"), ("nak", "cover"), ("error", "rstack"), ("rstack", "cover"), ("cover", "nak"),
          ("error", "cover"), ("stale", "nak"), ("rstack", "error"))
 
 
 def frames_for(kind, last_frm, code_e=0x51, code_r=11):
     n = last_frm
-    if kind in ("cover", "latecover"):
+    if kind in ("cover", "latecover", "slowcover"):
         return [{"type": "ACK", "res": 0, "nrdy": 0, "ack": (n + 1) % 8}]
     if kind == "stale":
         return [{"type": "ACK", "res": 0, "nrdy": 0, "ack": n}]
-    if kind in ("nak", "latenak"):
+    if kind in ("nak", "latenak", "slownak"):
         return [{"type": "NAK", "res": 0, "nrdy": 0, "ack": n}]
     if kind == "nakcover":
         return [{"type": "NAK", "res": 0, "nrdy": 0, "ack": (n + 1) % 8}]
@@ -74,7 +74,7 @@ def run_script(args):
             for k in kinds:
                 fs += frames_for(k, last[0], *codes)
             late = kinds[0].startswith("late") and r.next_timer() is not None
-            await r.recv(fs, late=late)
+            await r.recv(fs, late=late, slow=kinds[0].startswith("slow"))
             note()
         if workload == "staggered":
             await sub()
@@ -107,7 +107,7 @@ def run(ctx: Ctx):
                 jobs.append((wl, prefix, list(script), codes))
                 metas.append({"workload": wl, "prefix": prefix, "script": list(script), "codes": codes})
     # full-budget scripts (reach the last attempt with every consuming reaction) and paired reactions
-    consuming = ("nak", "silence", "latecover", "latenak")
+    consuming = ("nak", "silence", "latecover", "latenak", "slownak")
     A = int(maxatt)
     for script in itertools.product(consuming, repeat=A):
         for tail in ((), ("cover",), ("rstack",), ("error",)):
@@ -120,6 +120,13 @@ def run(ctx: Ctx):
                 jobs.append((wl, prefix, list(script), (0x51, 11)))
                 metas.append({"workload": wl, "prefix": prefix, "script": [list(x) if isinstance(x, tuple) else x for x in script],
                               "codes": (0x51, 11)})
+    # adaptive-timeout ramps: answers arriving just in time drive the timeout up; silence afterwards must still fire within the bounds
+    for up in range(1, 9):
+        for tail in (("silence",), ("silence", "silence"), ("slownak", "silence"), ("silence", "slowcover", "silence"), ("latecover",)):
+            for wl, prefix in (("three", 0), ("staggered", 3)):
+                script = ["slowcover"] * up + list(tail) + ["slowcover", "silence", "cover"]
+                jobs.append((wl, prefix, script, (0x51, 11)))
+                metas.append({"workload": wl, "prefix": prefix, "script": script, "codes": (0x51, 11)})
     # all reset / error codes once
     for c in range(256):
         jobs.append(("three", 0, ["nak", "error", "silence", "rstack", "cover"], (c, (c * 7 + 3) % 256)))
